@@ -377,11 +377,33 @@ func main() {
 	targetedN := flag.Int("targeted", 0, "per configuration and error value: this many failing script statements (+1 version write, +1 version read)")
 	split := flag.Bool("split", false, "print getSQLFile of the six embedded scripts")
 	exhaustive := flag.Bool("exhaustive", false, "every call x {before, after} of the first start, main configurations")
+	concN := flag.Int("conc", 0, "this many generated schedules of two concurrent starters")
+	concCases := flag.String("conc-cases", "", "file with concurrent cases (cfg, nhosts, sched) to run")
 	partialN := flag.Int("partial", 0, "clustered configurations: one in N script statements of a first start completes on some hosts only (1 = every statement)")
 	f := hx.ParseFlags()
 	out := hx.OpenOut(f.Out)
 	defer out.Close()
 	loadErrPool(*errtexts)
+	if *concN > 0 {
+		r := hx.Rand(f.Seed)
+		for i := 0; i < *concN; i++ {
+			c := genConc(r, i)
+			runConc(&c)
+			out.Put(c)
+		}
+		return
+	}
+	if *concCases != "" {
+		hx.ReadLines(*concCases, func(b []byte) {
+			var c ConcCase
+			if err := json.Unmarshal(b, &c); err != nil {
+				panic(err)
+			}
+			runConc(&c)
+			out.Put(c)
+		})
+		return
+	}
 	if *partialN > 0 {
 		partial(hx.Rand(f.Seed), out, *partialN)
 		return
